@@ -157,7 +157,7 @@ class TT():
             if len(N) != d or len(R) != d+1 or R[0] != 1 or R[-1] != 1 or (len(M) != 0 and len(M) != len(N)):
                 raise InvalidArguments("Check the ranks and the mode size.")
 
-            self.cores = source
+            self.cores = list(source)
             self.__R = R
             self.__N = N
             if len(M) == len(N):
@@ -196,7 +196,7 @@ class TT():
             else:
                 # TT-decomposition with prescribed size
                 # perform reshape first
-                self.__N = shape
+                self.__N = list(shape)
                 self.cores, self.__R = to_tt(tn.reshape(
                     source, shape), self.__N, eps, rmax, is_sparse=False)
                 self.__is_ttm = False
@@ -226,7 +226,7 @@ class TT():
             else:
                 # TT-decomposition with prescribed size
                 # perform reshape first
-                self.__N = shape
+                self.__N = list(shape)
                 self.cores, self.__R = to_tt(tn.reshape(
                     source, shape), self.__N, eps, rmax, is_sparse=False)
                 self.__is_ttm = False
